@@ -444,7 +444,11 @@ pub fn check_jacobian<T: Sc>(prob: &dyn Prob<T>, lin: &Lin, c: &Mat, jac: &DMatr
             let ref_a = j_ref.as_ref().map(|j| 4.0 * norm2(&lin.a.t().mul(&Mat::col_vec(j.col(s))).d)).unwrap_or(0.0);
             // absolute slack: entries of J in the subnormal range of T carry an absolute error of ~tiny
             let slack = (sh.n as f64) * lin.tiny;
-            let bound_a = (kf * lin.ut * smax * vn + smax * slack).max(ref_a);
+            // entries of W∘Phi in the subnormal range of the scalar type are stored with an absolute error
+            // of tiny·u, i.e. a RELATIVE error of the matrix of up to n·tiny/smax (seen in f32: a
+            // Gaussian 30 widths from its centre, A ~ 1e-39): the singular vectors inherit it
+            let sub = (sh.n as f64) * lin.tiny / smax;
+            let bound_a = (kf * lin.ut * smax * vn + smax * slack + sub * smax * vn).max(ref_a);
             if !(an <= bound_a) {
                 return Err(Fail::new(
                     "c03.orthogonal_to_range",
@@ -461,7 +465,7 @@ pub fn check_jacobian<T: Sc>(prob: &dyn Prob<T>, lin: &Lin, c: &Mat, jac: &DMatr
                     .as_ref()
                     .map(|j| 4.0 * norm2(&j.col(s).iter().zip(want.col(s)).map(|(a, b)| a - b).collect::<Vec<f64>>()))
                     .unwrap_or(0.0);
-                let bound_b = (kfw * lin.ut * kappa * vn + slack).max(ref_c);
+                let bound_b = (kfw * lin.ut * kappa * vn + slack + sub * kappa * vn).max(ref_c);
                 if !(out <= bound_b) {
                     return Err(Fail::new(
                         "c03.complement_in_range",
